@@ -14,8 +14,8 @@ open Qfx Qfx.Sess
 
 /-! ## continuity -/
 
-/-- **continuity, every history.**  No reset option configured, no inbound or outbound Logon carrying 141=Y, no "new
-    session" clock tick: for every role / BeginString / other settings, initial counters and finite event history
+/-- **continuity, every history.**  No reset option configured (the three flags off, no ResetSeqTime), no inbound or
+    outbound Logon carrying 141=Y, no "new session" clock tick (CheckResetTime ticks are allowed): for every role / BeginString / other settings, initial counters and finite event history
     (connects, disconnects, traffic, timeouts, stops, gaps, replays, …) the store is never reset (`epoch` unchanged, no
     `reset` observation anywhere in the trace), every stored message is still stored (the old association list is a suffix of
     the new one) and neither counter ever moved backwards. -/
@@ -52,8 +52,8 @@ theorem C07_connect_acceptor_keeps_store (s : Sess) (hi : s.cfg.initiator = fals
 /-- … and reconnecting as initiator continues the numbering: the Logon takes the next outbound number, the expected inbound
     number and everything stored are kept -/
 theorem C07_connect_initiator_continues (s : Sess) (hc : s.st.connected = false) (ht : s.st.sessionTime = true)
-    (hi : s.cfg.initiator = true) (hcfg : NoResetOptions s.cfg) :
-    let logon : OutMsg := { logonMsg (connectBase s) false with seq := s.store.sender }
+    (hi : s.cfg.initiator = true) (hcfg : NoResetFlags s.cfg) :
+    let logon : OutMsg := { stamp (connectBase s) (logonMsg (connectBase s) false) with seq := s.store.sender }
     let s' := (connect s).1
     s'.st = .logon ∧ s'.store.target = s.store.target ∧ s'.store.sender = s.store.sender + 1 ∧ s'.store.epoch = s.store.epoch
     ∧ s'.store.msgs = (if s.cfg.persist then (s.store.sender, logon) :: s.store.msgs else s.store.msgs)
@@ -85,7 +85,7 @@ theorem C07_logon_reset_received (s : Sess) (m : InMsg) (hi : s.cfg.initiator = 
     (h5 : (s.cfg.bs == 5 && !m.f.has 1137) = false) (hg : GateMsg s.cfg m) (ht : TimeGate s m)
     (hv : callbackVerdict m = none) (hf : logonResetFlag m = true) (hsr : s.sentReset = false) (h34 : getInt m 34 = .val 1) :
     ∃ base : Sess, base.cfg = s.cfg ∧
-    let reply : OutMsg := { logonMsg base true with seq := 1 }
+    let reply : OutMsg := { stamp base ((logonMsg base true).inReplyTo m) with seq := 1 }
     let r := logonFixMsgIn s m
     r.2 = .inSession ∧ r.1.store.sender = 2 ∧ r.1.store.target = 2 ∧ r.1.sentReset = false
     ∧ r.1.store.msgs = (if s.cfg.persist then [(1, reply)] else [])
@@ -102,7 +102,7 @@ theorem C07_logon_reset_received (s : Sess) (m : InMsg) (hi : s.cfg.initiator = 
     store was reset for it (next outbound 2, expected inbound 1), `sentReset` is raised -/
 theorem C07_logon_reset_sent (s : Sess) (hc : s.st.connected = false) (ht : s.st.sessionTime = true)
     (hi : s.cfg.initiator = true) (hr : shouldSendReset (connectBase s) = true) :
-    let logon : OutMsg := { logonMsg (connectBase s) true with seq := 1 }
+    let logon : OutMsg := { stamp (connectBase s) (logonMsg (connectBase s) true) with seq := 1 }
     let s' := (connect s).1
     s'.st = .logon ∧ s'.sentReset = true ∧ s'.store.sender = 2 ∧ s'.store.target = 1
     ∧ s'.store.msgs = (if s.cfg.persist then [(1, logon)] else [])
@@ -142,6 +142,89 @@ theorem C07_logon_reset_echo (s : Sess) (m : InMsg) (hi : s.cfg.initiator = true
     ∧ StoreMono s.store (handleLogon s m).1.store := by
   have := logon_echo_no_reset s m hi hsr
   exact ⟨this.log, this.store⟩
+
+/-! ## ResetSeqTime: the reset Logon sent in the middle of a connection (stateMachine.CheckResetTime) -/
+
+/-- when the clock "crosses": today's reset instant — second `rs` of the UTC day `now` lies in — is later than the
+    previous check and not later than `now` (pure integer arithmetic on the harness clock, whose origin is a midnight) -/
+theorem C07_reset_time_crossing (rs : Nat) (last now : Int) (h : rs < 86400) :
+    (crossedReset rs last now = true ↔ last < resetInstant rs now ∧ resetInstant rs now ≤ now)
+    ∧ resetInstant rs now / 86400 = now / 86400 ∧ resetInstant rs now % 86400 = rs :=
+  ⟨crossedReset_iff rs last now, resetInstant_day rs now h⟩
+
+/-- **ResetSeqTime applies.**  ResetSeqTime configured, a previous check recorded, a connection in place (in particular:
+    logged on), and the reset instant crossed: the store is reset (new epoch, nothing of the old numbering kept), the
+    engine's Logon is outbound number 1 and carries ResetSeqNumFlag=Y, the next outbound number is 2 and the next expected
+    inbound number is 1 — both sides number from 1 —, `sentReset` is raised (so that the echo does not reset again), the
+    state is unchanged, the clock is recorded; with the connection's outbound channel in place the Logon is written, after
+    the reset and the save.  No hypothesis on role, BeginString, counters, queue or state beyond "connected". -/
+theorem C07_reset_time_sends_reset_logon (s : Sess) (now last : Int) (rs : Nat) (hrs : s.cfg.resetSeqTime = some rs)
+    (hl : s.lastCheckedReset = some last) (hc : s.st.connected = true) (hx : crossedReset rs last now = true) :
+    let logon : OutMsg := { stamp s (logonMsg s true) with seq := 1 }
+    let s' := checkResetTime s now
+    s'.store.sender = 2 ∧ s'.store.target = 1 ∧ s'.store.msgs = (if s.cfg.persist then [(1, logon)] else [])
+    ∧ s'.store.epoch = s.store.epoch + 1 ∧ s'.sentReset = true ∧ s'.st = s.st ∧ s'.lastCheckedReset = some now
+    ∧ logon.kind = "A" ∧ logon.seq = 1 ∧ (141, "Y") ∈ logon.f
+    ∧ (s.out = true → s'.log = .wire logon :: (if s.cfg.persist then .saved 1 "A" (resendable logon) else .incS) :: .reset :: s.log) := by
+  intro logon s'
+  have hs' : s' = (sendLogonInReplyTo s true).setLastChecked now := checkResetTime_crossed s now last rs hrs hl hc hx
+  obtain ⟨q1, q2, q3, q4, _, q6, _, q8, q9⟩ := sendLogon_reset s
+  rw [hs']
+  exact ⟨q1, q2, q3, q8, q4, q6, rfl, rfl, rfl, logonMsg_mem141 _, q9⟩
+
+/-- the same as one whole event of a logged-on session: the observations of `CheckResetTime(now)` are exactly the store
+    reset, the save of Logon number 1 (or the bare counter increment without persistence) and the write of that Logon
+    carrying 141=Y; afterwards the counters are (2, 1) -/
+theorem C07_reset_time_step (s : Sess) (now last : Int) (rs : Nat) (hrs : s.cfg.resetSeqTime = some rs)
+    (hl : s.lastCheckedReset = some last) (hon : s.st.loggedOn = true) (ho : s.out = true) (hx : crossedReset rs last now = true) :
+    let logon : OutMsg := { stamp s (logonMsg s true) with seq := 1 }
+    (step s (.resetTime now)).2.1 = [.reset, (if s.cfg.persist then .saved 1 "A" (resendable logon) else .incS), .wire logon]
+    ∧ (step s (.resetTime now)).1.store.sender = 2 ∧ (step s (.resetTime now)).1.store.target = 1
+    ∧ (step s (.resetTime now)).1.sentReset = true ∧ (141, "Y") ∈ logon.f := by
+  intro logon
+  have hc : s.clearLog.st.connected = true := by
+    show s.st.connected = true
+    cases h : s.st <;> simp_all [SState.loggedOn, SState.connected]
+  obtain ⟨q1, q2, _, _, q5, _, _, _, _, q10, q11⟩ :=
+    C07_reset_time_sends_reset_logon s.clearLog now last rs hrs hl hc hx
+  have hlog := q11 ho
+  refine ⟨?_, q1, q2, q5, q10⟩
+  show (checkResetTime s.clearLog now).log.reverse = _
+  rw [hlog]
+  have e1 : stamp s.clearLog (logonMsg s.clearLog true) = stamp s (logonMsg s true) := rfl
+  have e2 : s.clearLog.cfg = s.cfg := rfl
+  have e3 : s.clearLog.log = [] := rfl
+  rw [e1, e2, e3]
+  simp [logon]
+
+/-- **… and only then.**  ResetSeqTime not configured, or the first check (nothing recorded yet), or no connection, or the
+    reset instant not crossed: `CheckResetTime` sends nothing and leaves the store, both counters, the queue, `sentReset`
+    and the state as they were (it only records the clock when ResetSeqTime is configured) -/
+theorem C07_reset_time_only_when_crossed (s : Sess) (now : Int)
+    (h : s.cfg.resetSeqTime = none ∨ s.lastCheckedReset = none ∨ s.st.connected = false
+         ∨ (∀ rs last, s.cfg.resetSeqTime = some rs → s.lastCheckedReset = some last → crossedReset rs last now = false)) :
+    let s' := checkResetTime s now
+    s'.store = s.store ∧ s'.log = s.log ∧ s'.toSend = s.toSend ∧ s'.sentReset = s.sentReset ∧ s'.st = s.st
+    ∧ (step s (.resetTime now)).2.1 = [] ∧ (step s (.resetTime now)).1.store = s.store := by
+  intro s'
+  have hq : ∀ x : Sess, (x.cfg.resetSeqTime = none ∨ x.lastCheckedReset = none ∨ x.st.connected = false
+         ∨ (∀ rs last, x.cfg.resetSeqTime = some rs → x.lastCheckedReset = some last → crossedReset rs last now = false)) →
+      (checkResetTime x now).store = x.store ∧ (checkResetTime x now).log = x.log ∧ (checkResetTime x now).toSend = x.toSend
+      ∧ (checkResetTime x now).sentReset = x.sentReset ∧ (checkResetTime x now).st = x.st := by
+    intro x hx
+    rcases checkResetTime_quiet x now hx with e | e <;> rw [e] <;> exact ⟨rfl, rfl, rfl, rfl, rfl⟩
+  obtain ⟨a1, a2, a3, a4, a5⟩ := hq s h
+  obtain ⟨b1, b2, _, _, _⟩ := hq s.clearLog h
+  refine ⟨a1, a2, a3, a4, a5, ?_, ?_⟩
+  · show (checkResetTime s.clearLog now).log.reverse = []
+    rw [b2]; rfl
+  · show (checkResetTime s.clearLog now).clearLog.store = s.store
+    exact b1
+
+/-- every check with ResetSeqTime configured records its clock: the next crossing is judged from this check -/
+theorem C07_reset_time_records_clock (s : Sess) (now : Int) (rs : Nat) (hrs : s.cfg.resetSeqTime = some rs) :
+    (checkResetTime s now).lastCheckedReset = some now :=
+  checkResetTime_records s now rs hrs
 
 /-! ## ResetOnLogout / ResetOnDisconnect -/
 
@@ -208,7 +291,7 @@ def c07Hist : List Ev := [.connect, .incomingMsg (some (c07Logon 7 [])), .incomi
    .disconnected, .connect, .incomingMsg (some (c07Logon 9 []))]
 
 -- the hypotheses of C07_continuity are satisfiable (kernel-checked) …
-example : NoResetOptions {} := ⟨rfl, rfl, rfl⟩
+example : NoResetOptions {} := ⟨⟨rfl, rfl, rfl⟩, rfl⟩
 example : NoResetEv .connect ∧ NoResetEv .disconnected ∧ NoResetEv (.sessionTime true true) ∧ NoResetEv (.timeout .peerTimeout) :=
   ⟨trivial, trivial, rfl, trivial⟩
 -- … and a history that satisfies them does real work: two connections, counters continue from (5, 7) to (7, 10), both
@@ -230,6 +313,47 @@ example : NoResetEv .connect ∧ NoResetEv .disconnected ∧ NoResetEv (.session
 -- FIX.4.0: the flag is never sent (the configured reset still happens locally)
 #guard (let r := step (initSess { initiator := true, resetOnLogon := true, bs := 0 } 5 7) .connect
         c07Wires r.2.1) == [("A", 1, [(108, "30")])]
+-- ResetSeqTime = 12:00:00 UTC (second 43200 of the day).  An acceptor logged on with counters (6, 8) whose previous check was
+-- at 11:59:50 of day 1 satisfies the hypotheses of C07_reset_time_sends_reset_logon for a check at 12:00:00 …
+def c07Rst : Cfg := { resetSeqTime := some 43200 }
+def c07Up (cfg : Cfg) (logon : InMsg := c07Logon 7 []) : Sess :=
+  runEvents (initSess cfg 5 7) [.connect, .incomingMsg (some logon), .resetTime (86400 + 43190)]
+#guard crossedReset 43200 (86400 + 43190) (86400 + 43200) && !crossedReset 43200 (86400 + 43190) (86400 + 43199)
+       && !crossedReset 43200 (86400 + 43200) (86400 + 43201) && crossedReset 43200 (86400 + 43190) (2 * 86400 + 50000)
+       && !crossedReset 43200 (86400 + 43190) (2 * 86400 + 100)
+#guard (c07Summary (c07Up c07Rst), (c07Up c07Rst).lastCheckedReset, (c07Up c07Rst).st.connected, (c07Up c07Rst).out)
+       == ((6, 8, [5], 0, "InSession"), some (86400 + 43190), true, true)
+-- … and the check does what the theorem says: store reset, Logon number 1 with 141=Y written, counters (2, 1), sentReset
+#guard (let r := step (c07Up c07Rst) (.resetTime (86400 + 43200))
+        (c07Summary r.1, c07Wires r.2.1, r.1.sentReset, r.2.1.filter (· == .reset), r.1.lastCheckedReset))
+       == ((2, 1, [1], 1, "InSession"), [("A", 1, [(108, "30"), (141, "Y")])], true, [.reset], some (86400 + 43200))
+-- one second earlier: nothing (C07_reset_time_only_when_crossed); likewise the first check, a check without a connection,
+-- and any check when ResetSeqTime is not configured
+#guard (let r := step (c07Up c07Rst) (.resetTime (86400 + 43199)); (c07Summary r.1, r.2.1)) == ((6, 8, [5], 0, "InSession"), [])
+#guard (let s := runEvents (initSess c07Rst 5 7) [.connect, .incomingMsg (some (c07Logon 7 []))]
+        let r := step s (.resetTime (86400 + 43200)); (c07Summary r.1, r.2.1, r.1.lastCheckedReset))
+       == ((6, 8, [5], 0, "InSession"), [], some (86400 + 43200))
+#guard (let s := runEvents (initSess c07Rst 5 7) [.resetTime (86400 + 43190)]
+        let r := step s (.resetTime (86400 + 43200)); (c07Summary r.1, r.2.1)) == ((5, 7, [], 0, "Latent"), [])
+#guard (let r := step (c07Up {}) (.resetTime (86400 + 43200)); (c07Summary r.1, r.2.1, r.1.lastCheckedReset))
+       == ((6, 8, [5], 0, "InSession"), [], none)
+-- the peer's answer (Logon 1 with 141=Y) to an INITIATOR's time-triggered reset: accepted, no second reset, counters (2, 2)
+#guard (let s := (step (c07Up { c07Rst with initiator := true }) (.resetTime (86400 + 43200))).1
+        let r := step s (.incomingMsg (some (c07Logon 1 [(141, "Y")])))
+        (c07Summary r.1, c07Wires r.2.1, r.1.sentReset, r.2.1.filter (· == .reset)))
+       == ((2, 2, [1], 1, "InSession"), [], false, [])
+-- FINDING on the unchanged tree (monitor clause C07.echo_of_own_reset_resets_again{role=acceptor}, known_findings.json):
+-- the same answer received by an ACCEPTOR is replied to (handleLogon answers every Logon of an acceptor) with a second
+-- Logon numbered 1 carrying 141=Y, for which prepMessageForSend resets the store once more (epoch 2)
+#guard (let s := (step (c07Up c07Rst) (.resetTime (86400 + 43200))).1
+        let r := step s (.incomingMsg (some (c07Logon 1 [(141, "Y")])))
+        (c07Summary r.1, c07Wires r.2.1, r.2.1.filter (· == .reset)))
+       == ((2, 2, [1], 2, "InSession"), [("A", 1, [(108, "30"), (141, "Y")])], [.reset])
+-- FINDING on the unchanged tree (C07.reset_flag_in_fix40{op=rtime}): CheckResetTime passes `true` whatever the BeginString —
+-- C07_reset_time_sends_reset_logon has no hypothesis on `bs` — so a FIX.4.0 session sends tag 141, which FIX.4.0 does not have
+#guard (let logon40 : InMsg := { f := [(8, "FIX.4.0"), (35, "A"), (49, "TGT"), (56, "SND"), (34, "7"), (52, "@0"), (98, "0"), (108, "30")] }
+        let r := step (c07Up { c07Rst with bs := 0 } logon40) (.resetTime (86400 + 43200))
+        (c07Summary r.1, c07Wires r.2.1)) == ((2, 1, [1], 1, "InSession"), [("A", 1, [(108, "30"), (141, "Y")])])
 -- ResetOnLogout / ResetOnDisconnect: (1, 1) right after
 #guard (let s := runEvents (initSess { resetOnLogout := true } 5 7) [.connect, .incomingMsg (some (c07Logon 7 []))]
         c07Summary (step s (.incomingMsg (some (c07Msg "5" 8 [])))).1) == (1, 1, [], 1, "Latent")
@@ -254,15 +378,25 @@ Clause checklist (properties.jsonl C07 → theorems)
 * a Logon carrying 141=Y received: both sides number from 1, the Logon is number 1, the reply echoes the flag
       : C07_logon_reset_received (counters (2,2), reply = outbound 1 with (141,"Y"), only stored message)
 * … sent because ResetOnLogon / reset options apply                : C07_logon_reset_sent, C07_logon_reset_sent_iff (when), C07_logon_reset_echo (no second reset)
-* the reset flag exists from FIX.4.1                               : C07_no_reset_flag_fix40 (+ `1 ≤ bs` in C07_logon_reset_sent_iff)
+* … sent because ResetSeqTime applies (CheckResetTime, in the middle of a connection)
+      : C07_reset_time_sends_reset_logon (crossing while connected: store reset, Logon outbound 1 with (141,"Y"), counters (2,1),
+        sentReset), C07_reset_time_step (the whole event: exactly [reset, save 1 A, wire Logon]), C07_reset_time_crossing (when:
+        last check < second rs of now's UTC day ≤ now), C07_reset_time_only_when_crossed (not configured / first check / no
+        connection / not crossed: nothing sent, store, counters, queue, sentReset untouched), C07_reset_time_records_clock;
+        the answer: initiator — C07_logon_reset_echo (no second reset); acceptor — FINDING, see the #guard: the engine answers
+        the peer's echo with another Logon 1 / 141=Y and resets again (C07.echo_of_own_reset_resets_again{role=acceptor})
+* the reset flag exists from FIX.4.1                               : C07_no_reset_flag_fix40 (+ `1 ≤ bs` in C07_logon_reset_sent_iff) for the
+        Logon of `connect`; FINDING: the ResetSeqTime Logon carries 141 in FIX.4.0 as well (#guard, C07.reset_flag_in_fix40{op=rtime})
 * ResetOnLogout / ResetOnDisconnect return both counters to 1 exactly at logout / disconnect
       : C07_reset_on_logout, C07_reset_on_disconnect_mid, C07_reset_on_disconnect; "exactly": with the options off nothing resets (C07_continuity)
 * a SequenceReset can only move the expected number forward; a lower NewSeqNo is rejected and changes nothing
       : C07_seqreset_forward_only (n > T ⇒ T' = n; n = T ⇒ nothing; n < T ⇒ Reject reason 5, T' = T), C07_seqreset_never_backwards (no hypotheses)
 * quantifier: every combination of ResetOnLogon/Logout/Disconnect/RefreshOnLogon, role, BeginString, prior counters
       : all theorems are ∀ cfg / ∀ s; RefreshOnLogon, role, BeginString, persistence are unconstrained everywhere
-* model boundary: ResetSeqTime is not modelled (the model has ResetOnLogon only); the "new session" tick of CheckSessionTime
-  (`sessionTime _ false`) is the model's only other reset and is excluded by `NoResetEv`; store I/O errors are outside.
+* model boundary: ResetSeqTime is modelled in UTC (`Cfg.resetSeqTime` = second of the day, `Ev.resetTime now` with the clock
+  as seconds since a midnight; the TimeZone setting is outside); with `NoResetOptions` (no ResetSeqTime) `resetTime` events
+  are allowed in C07_continuity and do nothing; the "new session" tick of CheckSessionTime (`sessionTime _ false`) is the
+  model's only other reset and is excluded by `NoResetEv`; store I/O errors are outside.
 * ResetOnLogon on the acceptor resets on every Logon (covered by the hypothesis `NoResetOptions` of continuity; its effect is
   the `logonResets` term of C06_gate_logon).
 -/
